@@ -6,6 +6,7 @@ import sys
 
 VERIF = os.path.dirname(os.path.dirname(os.path.abspath(__file__)))
 sys.path.insert(0, VERIF)
+import contracts
 props = [json.loads(l) for l in open(os.path.join(VERIF, "properties.jsonl"))]
 checks, na, engines_props = [], [], []
 for p in props:
@@ -27,7 +28,7 @@ for p in props:
         "replay_cmd_template": "./check replay {path}",
         "engine": "pyvc",
         "level_claimed": {"category": spec.LEVEL, "text": spec.LEVEL_TEXT, "design_ref": f"DESIGN.md section 5 ({pid})"},
-        "level_note": spec.LEVEL_NOTE,
+        "level_note": contracts.text_of(spec, "LEVEL_NOTE"),
         "technique": spec.TECHNIQUE,
     })
 m = {
